@@ -243,10 +243,11 @@ pub fn well_formed(text: &str, toks: &[STok]) -> Result<(), (String, String)> {
 pub fn expected(doc: &Doc) -> Vec<STok> {
     let mut out = vec![];
     let text = doc.text();
+    let ix = lsptext::LineIndex::new(text);
     let mut occ = doc.sem.occs.iter().peekable();
     for (k, t) in doc.pr.toks.iter().enumerate() {
         let (s, e) = doc.r.tok_ranges[k];
-        let (line, start) = lsptext::position(text, s);
+        let (line, start) = ix.position(s);
         let len = lsptext::utf16_len(&text[s..e]);
         let o = if occ.peek().map(|o| o.tok == k).unwrap_or(false) { occ.next() } else { None };
         let (ty, decl) = match &t.class {
@@ -267,7 +268,7 @@ pub fn expected(doc: &Doc) -> Vec<STok> {
         out.push(STok { line, start, len, ty: ty.into(), declaration: decl });
     }
     for (_, s, e, _) in &doc.r.comments {
-        let (line, start) = lsptext::position(text, *s);
+        let (line, start) = ix.position(*s);
         out.push(STok { line, start, len: lsptext::utf16_len(&text[*s..*e]), ty: "comment".into(), declaration: false });
     }
     out.sort_by_key(|t| (t.line, t.start));
@@ -296,7 +297,10 @@ fn eval_doc_inner(doc: &Doc, previous: Option<&str>) -> Vec<Failure> {
         Err(e) => return vec![Failure { key: "semtok:error".into(), case: doc.case(Value::Null), detail: e }],
     };
     let mut fails = vec![];
-    if let Err((k, d)) = well_formed(doc.text(), &got) {
+    // (the well-formedness scan is quadratic; on the large programs the comparison with the
+    // expected list below settles it as well)
+    if doc.text().len() > 20_000 {
+    } else if let Err((k, d)) = well_formed(doc.text(), &got) {
         fails.push(Failure { key: format!("semtok:ill-formed:{}", k), case: doc.case(Value::Null), detail: d });
         return fails;
     }
@@ -352,7 +356,7 @@ pub fn run(tier: Tier) -> Report {
         .enumerate()
         .flat_map_iter(|(i, it)| {
             let pr = print_program(&it.program);
-            let nvar = if it.family == "scenario-permutations" { 7 } else { 2 };
+            let nvar = if (it.family == "scenario-permutations" || progs::always_included(it.family)) { 7 } else { 2 };
             let vars = doc_variants(&pr, 6);
             let mut out = vec![];
             for k in 0..nvar {
@@ -370,7 +374,7 @@ pub fn run(tier: Tier) -> Report {
     let hist: Vec<Failure> = items
         .par_iter()
         .enumerate()
-        .filter(|(i, it)| it.family == "scenario-permutations" || i % tier.pick(5, 1) == 0)
+        .filter(|(i, it)| (it.family == "scenario-permutations" || progs::always_included(it.family)) || i % tier.pick(5, 1) == 0)
         .flat_map_iter(|(i, it)| {
             let pr = print_program(&it.program);
             let mut out: Vec<Failure> = vec![];
@@ -429,6 +433,31 @@ pub fn run(tier: Tier) -> Report {
         })
         .collect();
     fails.extend(bin_fails);
+    // two programs far beyond the small bounds: 2 500 and 9 000 statements (70 KB / 250 KB, in
+    // the token-per-line layout more than 65 536 lines), classification only
+    {
+        let sizes: &[usize] = if tier == Tier::Quick { &[2500] } else { &[2500, 9000] };
+        let huge: Vec<progs::Item> = sizes.iter().map(|n| progs::Item { family: "huge", program: progs::scale_program(40, 40, *n), focus_decl: 0 }).collect();
+        // (number of statements of main = the size parameter of the generator)
+        let n_of = |it: &progs::Item| -> usize { it.program.decls.iter().map(|d| if let RDecl::Proc { name, body, .. } = d { if name == "main" { body.len().saturating_sub(3) } else { 0 } } else { 0 }).sum() };
+        let hf: Vec<Failure> = huge
+            .par_iter()
+            .flat_map_iter(|it| {
+                let mut out = vec![];
+                for layout in [Layout::Lines, Layout::Pretty] {
+                    let doc = Doc::new(it, layout, vec![]);
+                    evals.fetch_add(1, Ordering::Relaxed);
+                    out.extend(eval_doc(&doc).into_iter().map(|mut f| {
+                        f.key = format!("{}:huge-document", f.key);
+                        f.case = json!({"huge": {"statements": n_of(it)}, "layout": format!("{:?}", layout)});
+                        f
+                    }));
+                }
+                out
+            })
+            .collect();
+        fails.extend(hf);
+    }
     let classified = evals.load(Ordering::Relaxed);
     // well-formedness on arbitrary documents
     let toks = Strings::new(SIGMA_TOK, tier.pick(3, 4));
@@ -465,6 +494,11 @@ pub fn run(tier: Tier) -> Report {
 }
 
 pub fn replay(case: &Value) -> Vec<Failure> {
+    if let Some(n) = case["huge"]["statements"].as_u64() {
+        let it = progs::Item { family: "huge", program: progs::scale_program(40, 40, n as usize), focus_decl: 0 };
+        let layout = layout_by_name(case["layout"].as_str().unwrap_or("Lines")).unwrap_or(Layout::Lines);
+        return eval_doc(&Doc::new(&it, layout, vec![])).into_iter().map(|mut f| { f.case = case.clone(); f }).collect();
+    }
     let t = case["text"].as_str().unwrap_or("");
     if case["request"]["mode"] == json!("process") {
         // re-decided against the fresh in-process answer (same classification, announced legend)
